@@ -2,3 +2,4 @@ import Props.C12
 #print axioms C12.perms_exact'
 #print axioms C12.match_sound'
 #print axioms C12.match_functional
+#print axioms C12.match_self
